@@ -45,10 +45,24 @@ type GenOut struct {
 
 var genDirCounter int
 
+// forceSlot names the directory the next reusable programs are laid out in (a path no earlier program used)
+var forceSlot string
+
 // writeProgram lays the program out under a fresh directory and returns it.
-func writeProgram(work string, p *Program) (string, error) {
+func writeProgram(work string, p *Program) (string, error) { return writeProgramAt(work, p, false) }
+
+// writeProgramAt: with reuse, the program is laid out at ONE fixed path that successive programs of this
+// process overwrite (a user regenerating in place): any state the generator keeps across calls keyed by
+// file name (a cache of parsed schemas, of source lines, ...) then meets different contents under the same name.
+func writeProgramAt(work string, p *Program, reuse bool) (string, error) {
 	genDirCounter++
 	dir := filepath.Join(work, fmt.Sprintf("p%d-%d", os.Getpid(), genDirCounter))
+	if reuse {
+		dir = filepath.Join(work, fmt.Sprintf("p%d-slot", os.Getpid()))
+		if forceSlot != "" {
+			dir = filepath.Join(work, fmt.Sprintf("p%d-%s", os.Getpid(), forceSlot))
+		}
+	}
 	os.RemoveAll(dir)
 	for name, content := range p.Schema {
 		fp := filepath.Join(dir, name)
@@ -122,7 +136,7 @@ func makeConfig(dir string, p *Program) *generate.Config {
 
 // runGenerate runs the real generator in-process with panic recovery and a watchdog.
 func runGenerate(work string, p *Program, keepDir bool) *GenOut {
-	dir, err := writeProgram(work, p)
+	dir, err := writeProgramAt(work, p, !keepDir)
 	out := &GenOut{Dir: dir}
 	if !keepDir {
 		defer os.RemoveAll(dir)
